@@ -209,8 +209,22 @@ func SynMenu() []spec.Batch {
 	}
 }
 
+// BigMenu: segments large enough for a term's cardinality to cross the 1024 boundary of
+// the cardinality-dependent chunk-size rules (modes 1025, 1026) during a merge.
+func BigMenu() []spec.Batch {
+	noX := spec.Batch{Docs: []spec.Doc{{ID: "nox", Fields: []spec.Field{dv(fld("a", 1, tok("q", 1, loc(1))))}}}}
+	return []spec.Batch{
+		noX, // M0: one document WITHOUT the big term (a term absent from an earlier input)
+		BatchCase{Fam: "boundary", N: 1030, Card: 1030, Opt: 2}.Batch(), // M1: x in all 1030 documents
+		BatchCase{Fam: "boundary", N: 600, Card: 600, Opt: 2}.Batch(),   // M2: x in all 600 documents
+		BatchCase{Fam: "boundary", N: 1024, Card: 1020, Opt: 2}.Batch(), // M3: 1024 documents, x in 1020
+	}
+}
+
 func menuOf(name string) []spec.Batch {
 	switch name {
+	case "big":
+		return BigMenu()
 	case "text":
 		return TextMenu()
 	case "syn":
